@@ -110,6 +110,10 @@ func run(c Case) *kit.Result {
 			s.x.Paras = d.Body.GetParagraphs()
 			s.x.Tables = d.Body.GetTables()
 			s.model = append(s.model, d.Body.Elements...)
+			// L6: the list the history starts from is the body as written, in document order
+			if !checkOpenedList(res, d, c.Base.mainPart(), fmt.Sprintf("document %d as opened", k)) {
+				return nil
+			}
 			if k > 0 {
 				res.Label("peer-opened-from-the-same-package")
 			}
